@@ -252,11 +252,14 @@ func opHistory(g *G) (interface{}, []uint64, int, interface{}) {
 		var err error
 		var pan interface{}
 		switch c := g.intn(20); {
-		case c < 11:
+		case (f == nil && c < 11) || (f != nil && f.b < 0):
 			// in-place mutation of a pool member
 			name := historyMutators[g.intn(len(historyMutators))]
 			if c < 6 {
 				name = historyMutators[g.intn(3)] // structural mutations more often
+			}
+			if f != nil {
+				name = f.op
 			}
 			st.Op = name
 			m.Phenotype = nil
@@ -284,7 +287,7 @@ func opHistory(g *G) (interface{}, []uint64, int, interface{}) {
 				st.Dst = g.intn(len(members))
 				members[st.Dst] = d
 			}
-		case c < 14:
+		case f == nil && c < 14:
 			// the generation ends: innovation records are forgotten (counters stay)
 			st.Op = "clearInnovations"
 			genetics.VerifPopSetInnovations(pop, nil)
